@@ -70,6 +70,11 @@ def corpus():
         ('strict', up + [('b', b'READY\nREADY\n')]),
         ('strict', up + [('b', b'READX\n')]),
         ('strict', up + [('b', READY), ('op', 'pstate stopping'), ('send',), ('op', 'pstate running'), ('send',)]),
+        # what is written to the listener's log (strip_ansi) must not be what the state machine sees (seed C10-4)
+        ('strict+strip', up + [('b', b'\x1b[0mREADY\n'), ('send',)]),
+        ('strict+strip', up + [('b', b'RE\x1b[0mADY\n'), ('send',)]),
+        ('strict+strip', up + [('b', READY), ('send',), ('b', b'RESULT 6\n\x1b[1mOK'), ('b', READY), ('send',)]),
+        ('default+log', up + [('b', READY), ('send',), ('b', b'RESULT 2\nOK'), ('b', b'\x1b[0mREADY\n'), ('send',)]),
     ]
 
 
@@ -92,6 +97,28 @@ def gen_answer(rng):
         full = result_tok(payload)
         return full[:rng.randrange(0, len(full) + 1)]
     return bytes(rng.randrange(256) for _ in range(rng.randrange(1, 10)))
+
+
+ANSI = [b'\x1b[0m', b'\x1b[1;31m', b'\x1b[K', b'\x1b[', b'\x1b', b'\x1b[2J\x1b[H', b'\x1b[38;5;196m']
+
+
+def ansi_noise(rng, data):
+    """terminal escape sequences at random places of a listener's output (a listener that colours its log lines):
+    they are ordinary bytes for the protocol, whatever [supervisord] strip_ansi says about the log file"""
+    for _ in range(rng.randrange(1, 3)):
+        k = rng.randrange(0, len(data) + 1)
+        data = data[:k] + rng.choice(ANSI) + data[k:]
+    return data
+
+
+def with_logmode(rng, handler, segs):
+    """a quarter of the scripts run with a stdout_logfile on the listener, most of those with strip_ansi and escapes"""
+    r = rng.random()
+    if r < 0.75:
+        return handler, segs
+    mode = 'strip' if r < 0.93 else 'log'
+    segs = [(s[0], ansi_noise(rng, s[1])) + tuple(s[2:]) if s[0] in ('b', 'die') and s[1] and rng.random() < 0.4 else s for s in segs]
+    return handler + '+' + mode, segs
 
 
 def gen_script(rng, rounds):
@@ -214,7 +241,7 @@ class Run:
         self.sent = []           # (evid, envelope bytes, incarnation)
         self.incarnation = 0
         self.envelopes = {}      # incarnation -> [envelope bytes of events handed over]
-        self.doc = DocAutomaton(handler)
+        self.doc = DocAutomaton(handler.partition('+')[0])
         self.viol = []
         self.serial = 0
         self.outstanding = False
@@ -298,7 +325,7 @@ class Run:
                 outs = self.emit(seg[1], *w.spawn(0, 0, int(toks[1])))
                 if fresh:
                     self.incarnation += 1
-                    self.doc = DocAutomaton(self.handler)
+                    self.doc = DocAutomaton(self.handler.partition('+')[0])
                     self.outstanding = False
             elif toks[0] == 'pstate':
                 outs = self.emit(seg[1], *w.pstate(0, 0, toks[1]))
@@ -387,7 +414,7 @@ def check_script(ctx, handler, segs, fraglists, cases, impls):
     for frags in fraglists:
         r = Run(ctx, handler, segs, frags)
         viol = r.finish()
-        cases.append(('case listener handler=' + handler, r.ops))
+        cases.append(('case listener handler=' + handler.partition('+')[0], r.ops))
         impls.append(r.lines)
         nontrivial = any('ls:' in l for l in r.lines)
         ctx.case_done(tuple(r.ops), nontrivial)
@@ -493,12 +520,12 @@ def run(ctx):
             check_script(ctx, 'strict' if n % 2 else 'default', segs, fl, cases, impls)
     # several complete result + READY cycles, cut anywhere
     for i in range(ctx.n(60, 1200)):
-        handler, segs = gen_cycles(rng)
+        handler, segs = with_logmode(rng, *gen_cycles(rng))
         modes = ['whole', 'bytes', 'random', 'random', 'few', 'few'] + (['few', 'random'] if ctx.tier != 'quick' else [])
         check_script(ctx, handler, segs, fraglists_for(rng, segs, modes), cases, impls)
     # random scripts
     for i in range(ctx.n(120, 2500)):
-        handler, segs = gen_script(rng, rng.randrange(1, 7))
+        handler, segs = with_logmode(rng, *gen_script(rng, rng.randrange(1, 7)))
         modes = ['whole', 'bytes', 'random'] + (['random'] if ctx.tier != 'quick' else [])
         check_script(ctx, handler, segs, fraglists_for(rng, segs, modes), cases, impls)
     ctx.sample({'case': cases[6][0], 'ops': cases[6][1][:8], 'impl': impls[6][:8]})
